@@ -77,6 +77,7 @@ type Facts struct {
 	HttpDivisor int                 `json:"httpDivisor"`
 	GrpcFlags   [][3]string         `json:"grpcFlags"`
 	Sites       map[string][]string `json:"sites"`
+	AwaitLoops  [][3]string         `json:"awaitLoops"`
 	Defaults    map[string]string   `json:"defaults"`
 }
 
@@ -229,6 +230,62 @@ func main() {
 		}
 	}
 
+	// 5b. loops that await spawned children: does the loop return on the first error (the coroutine then finishes while
+	// later children are still in flight) or does it keep awaiting (every child is waited for)?
+	{
+		files, _ := filepath.Glob(filepath.Join(repo, "internal/app/coroutines", "*.go"))
+		sort.Strings(files)
+		for _, p := range files {
+			if strings.HasSuffix(p, "_test.go") {
+				continue
+			}
+			f := parse(p)
+			if f == nil {
+				continue
+			}
+			rel, _ := filepath.Rel(repo, p)
+			for _, d := range f.Decls {
+				fd, ok := d.(*ast.FuncDecl)
+				if !ok || fd.Body == nil {
+					continue
+				}
+				ast.Inspect(fd.Body, func(n ast.Node) bool {
+					var body *ast.BlockStmt
+					switch l := n.(type) {
+					case *ast.ForStmt:
+						body = l.Body
+					case *ast.RangeStmt:
+						body = l.Body
+					default:
+						return true
+					}
+					awaits, returns := false, false
+					ast.Inspect(body, func(m ast.Node) bool {
+						switch x := m.(type) {
+						case *ast.FuncLit:
+							return false
+						case *ast.CallExpr:
+							if src(x.Fun) == "gocoro.Await" {
+								awaits = true
+							}
+						case *ast.ReturnStmt:
+							returns = true
+						}
+						return true
+					})
+					if awaits {
+						how := "awaits-all"
+						if returns {
+							how = "returns-on-error"
+						}
+						facts.AwaitLoops = append(facts.AwaitLoops, [3]string{rel, fd.Name.Name, how})
+					}
+					return true
+				})
+			}
+		}
+	}
+
 	// 6. struct-tag defaults
 	for _, spec := range [][3]string{
 		{"internal/app/subsystems/aio/store/sqlite/sqlite.go", "Config", "sqlite"},
@@ -334,7 +391,15 @@ func main() {
 			fmt.Fprintf(&ss, "  (%s, %s)", q(k), q(s))
 		}
 	}
-	ss.WriteString("\n]\n\nend Resonate.Gen\n")
+	ss.WriteString("\n]\n\n/-- every loop of a coroutine that awaits spawned children: (file, function, what it does when a child fails) -/\ndef awaitLoops : List (String × String × String) := [\n")
+	for i, a := range facts.AwaitLoops {
+		sep := ","
+		if i == len(facts.AwaitLoops)-1 {
+			sep = ""
+		}
+		fmt.Fprintf(&ss, "  (%s, %s, %s)%s\n", q(a[0]), q(a[1]), q(a[2]), sep)
+	}
+	ss.WriteString("]\n\nend Resonate.Gen\n")
 	os.WriteFile(filepath.Join(out, "Sites.lean"), []byte(ss.String()), 0o644)
 
 	if len(broken) > 0 {
